@@ -55,8 +55,16 @@ def compiler_class(name):
     return table[name]
 
 
+# second profiles, drawn 30% of the time: inputs that LACK the feature the compiler is named after, where
+# "nothing to do" shortcuts and kind bookkeeping live (e.g. negated quantifiers without any disjunction)
+VARIANTS: Dict[str, gen.Profile] = {
+    "disjunctive": gen.Profile(invariants=False, disjunction=False, implies_iff=False, neg_quant_bias=True, forall_effects=False, **_BASE),
+    "negative": gen.Profile(negation=False, **_BASE),
+    "quantifiers": gen.Profile(quantifiers=False, **_BASE),
+    "cond_effects": gen.Profile(cond_effects=False, **_BASE),
+}
 NAMES = list(PROFILES)
-WEIGHTS = {"trajectory": 4, "bounded_types": 2, "cond_effects": 2, "negative": 2, "grounder": 2}
+WEIGHTS = {"trajectory": 4, "bounded_types": 2, "cond_effects": 2, "negative": 2, "grounder": 2, "disjunctive": 2, "quantifiers": 2}
 PIPELINES = [
     ["quantifiers", "disjunctive"],
     ["cond_effects", "negative"],
@@ -78,6 +86,8 @@ def cases(names=None, with_pipelines=True, name_pool=None):
         comp = slots[draw(st.integers(0, len(slots) - 1))]
         # the profile of the first stage restricted by the later stages' needs
         prof = PROFILES[comp[0]]
+        if len(comp) == 1 and comp[0] in VARIANTS and draw(st.integers(0, 9)) < 3:
+            prof = VARIANTS[comp[0]]
         if len(comp) > 1:
             kw = dict(_BASE)
             if "disjunctive" in comp:
